@@ -511,6 +511,7 @@ PROPS["C18"] = {
         J(c18 + "SubsetSum", n=2, maxv=6, maxM=8, map_order="two", covers=["overflow entry"]),
         J(c18 + "SubsetSum", n=2, maxv=6, maxM=8, breaker=1, map_order="insertion"),
         J(c18 + "SubsetSum", n=0),
+        J(c18 + "SubsetSum", n=5, mode=1, map_order="insertion", cfg={"MaxPaths": 60000000, "Witnesses": 4}),
         J(c18 + "Cliques", n=4, map_order="two"),
         J(c18 + "Cliques", n=1),
     ],
@@ -520,11 +521,13 @@ PROPS["C18"] = {
         J(c18 + "SubsetSum", n=4, maxv=5, maxM=8, map_order="insertion", covers=["overflow entry"], cfg={"MaxPaths": 60000000}),
         J(c18 + "SubsetSum", n=3, maxv=6, maxM=8, map_order="two", covers=["overflow entry"], cfg={"MaxPaths": 60000000}),
         J(c18 + "SubsetSum", n=2, maxv=6, maxM=8, map_order="rotations", covers=["overflow entry"]),
+        J(c18 + "SubsetSum", n=6, mode=1, map_order="insertion", cfg={"MaxPaths": 60000000, "Witnesses": 4}),
+        J(c18 + "SubsetSum", n=5, mode=1, breaker=1, map_order="insertion", cfg={"MaxPaths": 60000000, "Witnesses": 4}),
         J(c18 + "Cliques", n=5, map_order="two", cfg={"MaxPaths": 60000000}),
         J(c18 + "Cliques", n=3, map_order="rotations"),
     ],
-    "bounds": {"quick": "Knapsack: 0..3 items with symbolic weights 0..6 and values 1..9, limit symbolic 0..5, and, enumerated rather than symbolic, 5 items with weights from {1,2,3}, values from {1,10} and limit 6 or 7 (long enough for table entries to share a backing array) (items heavier than the limit, equal weights/values, empty input), optional arbitrary tie-breaker; FindDpSolvers/Best/BestAllowMinOverflow: 0..3 items with symbolic values 1..6, limit symbolic 0..8, overflow allowed or not, optional arbitrary tie-breaker, map iteration forward (3 items) and forward/reversed (2 items); GetMaximalCliques: all undirected simple graphs on 1..4 vertices (each edge a symbolic boolean), node-map iteration forward and reversed; all compared with brute force over all subsets evaluated branch-free",
-               "thorough": "4 items, 5 vertices, every rotation of the map iteration order for the small cases"},
+    "bounds": {"quick": "Knapsack: 0..3 items with symbolic weights 0..6 and values 1..9, limit symbolic 0..5, and, enumerated rather than symbolic, 5 items with weights from {1,2,3}, values from {1,10} and limit 6 or 7 (long enough for table entries to share a backing array) (items heavier than the limit, equal weights/values, empty input), optional arbitrary tie-breaker; FindDpSolvers/Best/BestAllowMinOverflow: 0..3 items with symbolic values 1..6, limit symbolic 0..8, overflow allowed or not, optional arbitrary tie-breaker, map iteration forward (3 items) and forward/reversed (2 items), and, enumerated rather than symbolic, 5 items with values from {1,2,4,8,16} and limit 15 or 31 (selections of 3 and more items extended in several ways, so entries sharing a backing array show); GetMaximalCliques: all undirected simple graphs on 1..4 vertices (each edge a symbolic boolean), node-map iteration forward and reversed; all compared with brute force over all subsets evaluated branch-free",
+               "thorough": "4 items, 5 vertices, every rotation of the map iteration order for the small cases; enumerated subset sums with 6 items, and 5 items with an arbitrary tie-breaker"},
     "outside": ["more items / vertices", "directed or self-loop graphs", "map iteration orders other than those enumerated (Go promises none; forward, reversed and rotations are explored)"],
     "assumptions": ["weights non-negative and values positive as in the property", "the tie-breaker is an arbitrary function of the candidate lengths (uninterpreted)"],
     "level_text": "Bounded symbolic model checking of the DP solvers against brute-force enumeration of all 2^n selections written as branch-free terms: weights, values and limits are symbolic, so ties, items heavier than the limit and boundary totals are decided by the solver. For the clique enumeration nothing scalar remains symbolic after the edge choices: that part is an exhaustive enumeration of small graphs carried out by the engine's forking, and is labelled so.",
